@@ -184,8 +184,8 @@ CHECKS = {
         "technique": "property-based testing (rapid) of generated producer/consumer scripts in testing/synctest bubbles; multiset/order/termination oracle",
         "rule": ("kinds chans-merge, chans-merge-iface (chan error carrying nil values), replicate, stream-merge, stream-merge-burst (many rounds of inputs that end at the same instant). non-trivial = >= 2 non-empty inputs of different lengths (one closes while another still has values), or arity in {0,1}, or an early Close (stream.Merge); replicate: >= 2 destinations and >= 2 values, or zero destinations; distinct = distinct plan JSON; R=3/10"),
         "assumptions": ["testing/synctest durable-block detection", "rapid v1.3.0; go1.26.8"],
-        "jobs": [{"pkg": "c12merge", "kinds": ["chans-merge", "chans-merge-iface", "replicate", "stream-merge", "stream-merge-burst", "chans-merge-shared", "stream-merge-error-storm"], "scale_thorough": 10, "shards_thorough": 16, "replay_reps": 30},
-                 {"pkg": "c12merge", "race": True, "kinds": ["chans-merge", "chans-merge-iface", "replicate", "stream-merge", "stream-merge-burst", "chans-merge-shared", "stream-merge-error-storm"], "scale_quick": 0.15, "scale_thorough": 2, "shards_thorough": 4, "replay_reps": 20}],
+        "jobs": [{"pkg": "c12merge", "kinds": ["chans-merge", "chans-merge-iface", "replicate", "stream-merge", "stream-merge-burst", "chans-merge-shared", "stream-merge-error-storm", "replicate-iface"], "scale_thorough": 10, "shards_thorough": 16, "replay_reps": 30},
+                 {"pkg": "c12merge", "race": True, "kinds": ["chans-merge", "chans-merge-iface", "replicate", "stream-merge", "stream-merge-burst", "chans-merge-shared", "stream-merge-error-storm", "replicate-iface"], "scale_quick": 0.15, "scale_thorough": 2, "shards_thorough": 4, "replay_reps": 20}],
     },
     "C13": {
         "level": "exploration",
